@@ -741,7 +741,7 @@ def add_equ(rng, lines):
 TRICKY = ["XLOOP", "SAVEY", "PCRX1", "L@2", "USER", "A1", "B9", "BB", "AX", "XY", "SU", "UPCR", "PCRS", "XPCR", "PC1",
           "DPX", "CCR", "D0", "SS", "UU", "YX", "AT@S", "@", "@X", "X@", "X1", "Y2", "S3", "U4", "PCRPCR", "APCR", "DPCR",
           "loop", "x1", "pcr1", "Xy", "sU", "1A", "2X", "9@", "0PCR", "NOP", "END", "EQU", "LDA", "BRA", "ORG", "RMB",
-          "MY_L", "S_"]
+          "MY_L", "S_", "FCCMSG", "M_FCC", "XFCB", "FDB1", "RMB2", "LDA1", "EQUAL", "ORGAN", "ENDING", "fccx", "NAMX", "TFCC"]
 
 
 def fresh_names(rng, n, avoid):
@@ -1041,6 +1041,11 @@ def run_c18(tier, rng, rep, info, deadline):
                 raw = [" %s DONE,PCR\n" % mn, "MID LEAY MID,PCR\n"] + asmgen.filler(n - 8) + [" LDB MID,PCR\n", "DONE RTS\n"]
             boundary.add(len(raws))
             raws.append(raw)
+        # every kind of statement carries a label somewhere (renaming must not let the label's text reach the statement)
+        for _ in range(4):
+            raws.append(["T%d %s\n" % (j, st) for j, st in enumerate(rng.sample(
+                ['FCC "OFF WE GO: FIFTY-FIVE"', "FCC /A B/ ; c", "FCB 1,2,3", "FDB $1234", "RMB 3", "NOP", "LDA #1", "LDX #T0", "BRA T1", "LEAX T0,PCR",
+                 "FCC 'FCC'", "FCB 'F", "JMP T2"], 6))])
         prelim = asmlib.impl_batch([([" ORG $1000\n"] + r, None) for r in raws])
         cases = []       # dict(relation, program, variant, params, base_index)
         bases = []
